@@ -2,8 +2,8 @@
 
 ENGINES = [
     {'name': 'pyvc', 'path': 'vf/pyvc',
-     'serves_properties': ['C01', 'C02', 'C03', 'C04', 'C05', 'C07', 'C11', 'C12', 'C13', 'C14',
-                           'C16', 'C17', 'C19', 'C20'],
+     'serves_properties': ['C01', 'C02', 'C03', 'C04', 'C05', 'C06', 'C07', 'C11', 'C12', 'C13',
+                           'C14', 'C15', 'C16', 'C17', 'C19', 'C20'],
      'kind_free_text': 'contract-based deductive verification: sidecar contracts (vf/contracts) on '
                        'the real functions; verification conditions generated from the AST of /repo '
                        'on every run (forward symbolic execution, path enumeration, modular calls '
@@ -174,11 +174,17 @@ CLAIMED = {
                      'oracles.',
                 note='maximum_filter output is a symbolic input of the block contract; argsort '
                      'specified as a sorting permutation'),
-    'C15': dict(engine='rtc', technique=f'{_B}: representation matrix',
-                text='No contract within reach expresses dtype / layout independence of compiled '
-                     'numpy / scipy kernels: 32 representations x 46 entry-point configurations '
+    'C15': dict(engine='pyvc+rtc', technique=f'{_T} (dtype discipline at the sites under contract) '
+                                             f'+ {_B}: representation matrix',
+                text='Proved at the sites under contract (do_photometry, ApertureStats cutouts, '
+                     'SourceCatalog.segment_fluxerr, detect_threshold): an error map / image that '
+                     'may arrive in any (narrow, unsigned integer) dtype is converted to float '
+                     'before it is multiplied or squared, and is never the dtype a computed value is '
+                     'cast to. Dtype / layout / container independence of everything else (compiled '
+                     'numpy / scipy kernels): 32 representations x 46 entry-point configurations '
                      'compared with the float64 reference, units on outputs, unit mixes rejected.',
-                note='bounded only'),
+                note='the proof covers integer wrap-around only, at four call sites; bounded '
+                     'otherwise'),
     'C16': dict(engine='coherence', technique=f'{_T} (getter purity, loop independence) + {_B}',
                 text='Proved: ApertureStats getters are pure and the per-aperture cutout loop has no '
                      'loop-carried state. Every statistic is checked bounded against pixel-loop '
